@@ -8,6 +8,8 @@ use crate::{Iri, IriRef, resolve::BaseIri};
 #[derive(Clone, Debug)]
 pub struct Relativizer<T> {
     base: T,
+    path_begin: usize,
+    has_authority: bool,
     query_end: usize,
     path_end: usize,
     slashes: Vec<usize>,
@@ -51,10 +53,13 @@ impl<T: Deref<Target = str>> Relativizer<T> {
         } else {
             path_begin
         };
+        let has_authority = base.authority().is_some();
         let base = base.into_inner();
 
         Self {
             base,
+            path_begin,
+            has_authority,
             query_end,
             path_end,
             slashes,
@@ -77,30 +82,40 @@ impl<T: Deref<Target = str>> Relativizer<T> {
             // regardless, we must include the fragment (if any) in the relative IRI.
             Some(IriRef::new_unchecked(iri[self.query_end..].into()))
         } else if lcp > self.path_end {
-            // both iri and base have a query and-or fragment (because lcp is *strictly* > to path_end)
-            // and they differ in the query or presence thereof
-            // (because if if they differed only in fragment, we would have matched above)
+            // both iri and base have a query (because lcp is *strictly* > to path_end,
+            // and the case where they only share the '#' was handled above)
+            // and they differ in the query
             // → we include query and-or fragment in the relative IRI
             Some(IriRef::new_unchecked(iri[self.path_end..].into()))
-        } else if lcp == self.path_end
-            && (iri.len() == self.path_end || iri[self.path_end..].starts_with(['?', '#']))
-        {
-            // both iri and base have exactly the same path, but differ after
+        } else if lcp == self.path_end && iri[self.path_end..].starts_with('?') {
+            // both iri and base have exactly the same path, base has no query but iri has one
             // → same as above
             Some(IriRef::new_unchecked(iri[self.path_end..].into()))
         } else if lcp >= self.pseudoroot {
             // iri and base have similar paths
+            // (possibly the same path, if base has a query and iri has none:
+            //  the last segment must then be repeated, to get rid of the query of base)
+            if !self.has_authority && iri[self.path_begin..].starts_with("//") {
+                // iri has an authority, while base has none
+                return None;
+            }
+            if self.path_begin == self.path_end {
+                // the path of base is empty
+                let rest = &iri[self.path_end..];
+                if rest.is_empty() || rest.starts_with('#') {
+                    // iri has an empty path as well, but not the query of base:
+                    // no relative reference with an empty path can achieve that
+                    return None;
+                }
+                if self.has_authority && !rest.starts_with('/') {
+                    // iri continues the *authority* of base (e.g. http://a?q → http://ab/)
+                    return None;
+                }
+            }
             for (nb, slash) in self.slashes.iter().copied().enumerate() {
                 if lcp > slash {
                     return if nb == 0 {
-                        if iri.len() == slash + 1 || iri[slash + 1..].starts_with(['?', '#']) {
-                            // insert ./ if there is no path element after the last slash
-                            Some(IriRef::new_unchecked(
-                                format!("./{}", &iri[slash + 1..]).into(),
-                            ))
-                        } else {
-                            Some(IriRef::new_unchecked(iri[slash + 1..].into()))
-                        }
+                        Self::protected(&iri[slash + 1..], true)
                     } else {
                         // insert the expected amount of '../'
                         let mut parts = vec![".."; nb + 1];
@@ -110,15 +125,16 @@ impl<T: Deref<Target = str>> Relativizer<T> {
                 }
             }
             if self.slashes.is_empty() {
-                if iri[self.pseudoroot - 1..].starts_with('/')
-                    && (iri.len() == self.pseudoroot
-                        || iri[self.pseudoroot..].starts_with(['?', '#']))
-                {
-                    Some(IriRef::new_unchecked(
-                        format!("./{}", &iri[self.pseudoroot..]).into(),
-                    ))
+                let rem = &iri[self.pseudoroot..];
+                if self.pseudoroot > self.path_begin {
+                    Self::protected(rem, true)
+                } else if self.has_authority && rem.starts_with("//") {
+                    // the path of iri starts with an empty segment,
+                    // no reference relative to an empty path can produce that
+                    None
                 } else {
-                    Some(IriRef::new_unchecked(iri[self.pseudoroot..].into()))
+                    // rem is the whole hierarchical part of iri
+                    Self::protected(rem, false)
                 }
             } else {
                 let nb = self.slashes.len();
@@ -129,6 +145,20 @@ impl<T: Deref<Target = str>> Relativizer<T> {
         } else {
             // iri and base are too different to relativize
             None
+        }
+    }
+
+    /// Make a relative reference out of `rem`, the remainder of an IRI after the last slash of the base
+    /// (or its whole hierarchical part if `after_slash` is false),
+    /// prefixing it with `./` whenever it would otherwise be misinterpreted
+    /// (empty path, first segment containing a colon, leading empty segment).
+    fn protected<'a>(rem: &'a str, after_slash: bool) -> Option<IriRef<Cow<'a, str>>> {
+        let first_segment = &rem[..rem.find(['/', '?', '#']).unwrap_or(rem.len())];
+        let no_path = rem.is_empty() || rem.starts_with(['?', '#']);
+        if first_segment.contains(':') || no_path || (after_slash && rem.starts_with('/')) {
+            Some(IriRef::new_unchecked(format!("./{rem}").into()))
+        } else {
+            Some(IriRef::new_unchecked(rem.into()))
         }
     }
 }
